@@ -3,6 +3,7 @@ package main
 import (
 	"bytes"
 	"fmt"
+	"github.com/aml-org/amf-custom-validator/pkg/config"
 	"net"
 	"os"
 	"os/exec"
@@ -45,6 +46,11 @@ var c08Syntaxes = []struct{ name, code string }{
 	{"negated", "not $C == 17"},
 	{"with-legacy-identifier-in", "in = 5\nunsafe_r := $C"},
 	{"with-legacy-identifier-every", "every = 5\nunsafe_r := $C"},
+	// other features of the policy language next to the call: each works alone
+	{"next-to-print-call", "print(\"probe\")\nunsafe_r := $C"},
+	{"next-to-trace-call", "trace(\"probe\")\nunsafe_r := $C"},
+	{"under-with-modifier", "unsafe_r := $C with input as {}"},
+	{"after-some-declaration", "some unsafe_i\nunsafe_r := [$C][unsafe_i]"},
 }
 
 // positions: where the code is embedded in the profile language. $CODE is the (multi-line) rule body fragment.
@@ -158,7 +164,7 @@ func c08(tier string) {
 	}
 	ctx := lib.NewCtx("C08", tier)
 	ctx.Level = "fault_enumeration"
-	ctx.Rule = "(i) by name, complete matrix: 5 built-ins x 15 embedding positions (validation rego / regoModule / code+message form / constraint-level / inside nested / inside atLeast / under not, and, or, if, then, else / rego_extensions rule / helper function in rego_extensions called from an innocuous rego / second validation on another level) x 10 call syntaxes (statement, :=, =, array/set/object comprehension, argument of another call, negated, next to identifiers named like future keywords) x debug flag {false,true}: CompileProfile and Validate must fail and no evaluation event (OpaValidationStart or later) may be seen; every (position, syntax) cell is first shown to compile with a harmless call; " +
+	ctx.Rule = "(i) by name, complete matrix: 5 built-ins x 15 embedding positions (validation rego / regoModule / code+message form / constraint-level / inside nested / inside atLeast / under not, and, or, if, then, else / rego_extensions rule / helper function in rego_extensions called from an innocuous rego / second validation on another level) x 14 call syntaxes (statement, :=, =, array/set/object comprehension, argument of another call, negated, next to identifiers named like future keywords, next to print / trace calls, under a `with` modifier, after a `some` declaration) x debug flag {false,true}: CompileProfile, Validate and ValidateWithConfiguration (three report configurations) must fail and no evaluation event (OpaValidationStart or later) may be seen; every (position, syntax) cell is first shown to compile with a harmless call; " +
 		"(ii) by behaviour: every built-in registered in the linked OPA (ast.Builtins) gets a type-correct call synthesised from its declaration; each profile that compiles is compiled+evaluated in a child process under strace -f -e trace=socket,connect,sendto,sendmsg and must issue no AF_INET/AF_INET6 system call (controls: a profile without Rego shows none, a resolver call shows some); " +
 		"non-trivial & distinct = matrix cell / built-in actually judged"
 	ctx.Assumptions = []string{"host inspection and compiler re-entry are not visible as system calls: opa.runtime, rego.parse_module and walk are decided by name only", "strace must work in the sandbox (checked by the positive control, otherwise part (ii) is inconclusive)"}
@@ -206,6 +212,8 @@ func c08(tier string) {
 			code := ""
 			if call == "" { // relation built-in (walk): only the statement-like syntaxes apply
 				switch c.syn {
+				case "next-to-print-call", "next-to-trace-call":
+					code = strings.ReplaceAll(synCode[c.syn], "unsafe_r := $C", b.rel)
 				case "statement", "with-legacy-identifier-in", "with-legacy-identifier-every":
 					code = strings.ReplaceAll(synCode[c.syn], "unsafe_r := $C", b.rel)
 					code = strings.ReplaceAll(code, "$C", b.rel)
@@ -253,6 +261,20 @@ func c08(tier string) {
 					if e.EventType == events.OpaValidationStart || e.EventType == events.OpaValidationDone || e.EventType == events.BuildReportStart {
 						ctx.Violation("evaluation-started", fmt.Sprintf("profile calling %s (%s, %s): pipeline went on to %s", b.name, c.pos, c.syn, eventName(e.EventType)), base)
 						break
+					}
+				}
+				// the other validating entry point, under report configurations that differ from the default one
+				if !dbg {
+					for ci, rc := range []config.ReportConfiguration{
+						{IncludeReportCreationTime: false, ReportSchemaIri: "file:///dialects/validation-report.yaml", LexicalSchemaIri: "file:///dialects/lexical.yaml"},
+						{IncludeReportCreationTime: true, ReportSchemaIri: "", LexicalSchemaIri: ""},
+						{},
+					} {
+						if oc := lib.ValidateCfg(ptext, data, nil, lib.Epoch2000, rc); !oc.Failed() {
+							base["report_configuration"] = ci
+							ctx.Violation("unsafe-builtin-evaluated", fmt.Sprintf("ValidateWithConfiguration(configuration %d) returned a report for a profile calling %s (%s, %s)", ci, b.name, c.pos, c.syn), base)
+						}
+						ctx.Count("cells_judged_under_other_report_configurations", 1)
 					}
 				}
 			}
